@@ -9,7 +9,7 @@ import collections
 
 import z3
 
-from .sorts import (SV, PyVal, PyTuple, Closure, BoundMethod, ModuleRef, ClassRef, SpecFn, Sort, INT, BOOL, STR, REAL, VAL, NONE,
+from .sorts import (PyProperty, SV, PyVal, PyTuple, Closure, BoundMethod, ModuleRef, ClassRef, SpecFn, Sort, INT, BOOL, STR, REAL, VAL, NONE,
                     NONE_V, RefT, SeqT, SetT, MapT, TupT, Val, Ref, null, zsort, fresh, const, mk_bool, mk_int, mk_str, fresh_name)
 from .values import (nth, OutsideSubset, coerce, box, unbox, py_eq, truthy, ite, tup_items, empty_map, join_sort, is_ref,
                      int_to_str, default_term)
@@ -192,6 +192,10 @@ class Exec(ExprMixin, StmtMixin, CallMixin):
         return f
 
     def truth(self, st, v):
+        if is_ref(getattr(v, 'sort', None)) and v.sort.cls is not None:
+            text = self.reg.class_info(v.sort.cls, 'truth')
+            if text is not None:          # objects whose truth value is part of their abstract state
+                return z3.And(v.t != null, self.spec_eval(text, st, {'self': v}).t)
         return truthy(v, self.len_of_ref(st))
 
     # ------------------------------------------------------------------ spec evaluation
@@ -343,6 +347,12 @@ class Exec(ExprMixin, StmtMixin, CallMixin):
 
     def check_normal_exit(self, st, result):
         ct = self.ct
+        if isinstance(result, PyProperty) and is_ref(ct.returns):
+            # a property object returned by the code: an object whose getter value is what the closure computes now
+            obj = self.allocate(st, ct.returns.cls)
+            key = self.reg.field_key(ct.returns.cls, 'fgetv')
+            self.heap_set(st, key, obj.t, self.call_closure(result.fget, [], {}, st))
+            result = obj
         if isinstance(ct.returns, SeqT) and not isinstance(getattr(result, 'sort', None), SeqT):
             result = self.as_seq(result, st)             # a returned container is specified by the sequence it iterates as
         if ct.returns is not None and not isinstance(result, PyVal):
